@@ -262,6 +262,48 @@ def integration(ctx, tmp):
         ctx.count(name, len(combos))
     ctx.sample({"queries": [q[0] for q in QUERIES], "variants": n_variants})
 
+    # ---- dataset queries: find-first over two runs holding the same data IDs; iteration, count and limit must agree
+    from lsst.daf.butler import DatasetType
+
+    dt = DatasetType("c16_dt", {"instrument", "detector"}, "StructuredDataDict", universe=b.dimensions)
+    b.registry.registerDatasetType(dt)
+    for run, dets in (("ra", (1, 2, 3)), ("rb", (2, 3)), ("rc", (3,))):
+        b.registry.registerRun(run)
+        b.registry.insertDatasets(dt, [{"instrument": "I", "detector": d} for d in dets], run=run)
+    for colls, find_first in itertools.product([["ra"], ["rb", "ra"], ["rc", "rb", "ra"], ["ra", "rb", "rc"]], [True, False]):
+        with b.query() as q:
+            base = q.datasets(dt, collections=colls, find_first=find_first)
+            allrows = list(base)
+            n = len(allrows)
+            want_n = 3 if find_first else sum({"ra": 3, "rb": 2, "rc": 1}[c] for c in colls)
+            ctx.evaluations += 1
+            problems = []
+            if n != want_n:
+                problems.append(f"{n} datasets, expected {want_n}")
+            if find_first:
+                for r in allrows:
+                    first = next(c for c in colls if r.dataId["detector"] in {"ra": (1, 2, 3), "rb": (2, 3), "rc": (3,)}[c])
+                    if r.run != first:
+                        problems.append(f"detector {r.dataId['detector']} comes from {r.run}, first match is {first}")
+            for exact in (True, False):
+                cnt = base.count(exact=exact, discard=True)
+                if cnt != n:
+                    problems.append(f"count(exact={exact}) = {cnt}, iteration gives {n}")
+            for lim in (0, 1, 2, n, n + 2):
+                lr = base.limit(lim)
+                rows = list(lr)
+                if len(rows) != min(lim, n) or lr.count(exact=True, discard=True) != len(rows):
+                    problems.append(f"limit({lim}): {len(rows)} rows, count {lr.count(exact=True, discard=True)}, expected {min(lim, n)}")
+            if base.any() != (n > 0):
+                problems.append("any() disagrees with iteration")
+            ordered = [r.dataId["detector"] for r in base.order_by("-detector")]
+            if ordered != sorted(ordered, reverse=True) or len(ordered) != n:
+                problems.append(f"order_by('-detector') gives {ordered}")
+            if problems:
+                viol(f"[datasets collections={colls} find_first={find_first}] " + "; ".join(problems[:3]), f"datasets:{colls}:{find_first}",
+                     {"kind": "datasets", "collections": colls, "find_first": find_first, "problems": problems})
+    ctx.count("dataset-queries", 8)
+
     # ---- one constraint, three spellings
     for v in (1, 4, 7):
         a = {tuple(sorted(d.required.items())) for d in b.query_data_ids(["visit", "detector"], data_id={"instrument": "I", "visit": v}, explain=False)}
